@@ -33,9 +33,10 @@ var c05AppOps = []string{
 	"UndelegateHalf1", // ... half of it (the powers shift by more than 5%)
 	"Delegate0",       // the user delegates to validator 0
 	"Unjail2",         // validator 2 asks to be unjailed
-	"Keys",            // validators 0 and 1 register their ethereum and minter keys
+	"Keys",            // validators 1 and 2 (the one that undelegates, the one that goes offline / double-signs) register their ethereum and minter keys
 	"Send",            // the user sends 1000 hub to ethereum and asks for a batch
 	"Deposit",         // every validator claims the next deposit event of ethereum (from its own account)
+	"Claim1",          // validator 1 alone claims the next deposit event of ethereum: its vote waits for the others
 	"DoubleSign2",     // the block carries evidence that validator 2 signed two blocks at the previous height (x/evidence: slashed, jailed, tombstoned)
 }
 
@@ -69,7 +70,7 @@ func c05AppMsgs(c *apph.Chain, op string, depNonce *uint64) []*apph.Msg {
 	case "Keys":
 		var l []*apph.Msg
 		cdc := c.App.AppCodec()
-		for i := 0; i < 2; i++ {
+		for i := 1; i < 3; i++ {
 			for _, ch := range []string{"ethereum", "minter"} {
 				v := val(i)
 				l = append(l, &apph.Msg{M: hub.DelegateKeysMsg(cdc, v, ch, v.Acc, v.EthKey, 0)})
@@ -79,6 +80,10 @@ func c05AppMsgs(c *apph.Chain, op string, depNonce *uint64) []*apph.Msg {
 	case "Send":
 		return []*apph.Msg{{M: mhubtypes.NewMsgSendToExternal("ethereum", c.User, hub.HexAddr("app-rcpt"), sdk.NewInt64Coin("hub", 1000), sdk.NewInt64Coin("hub", 5))},
 			{M: &mhubtypes.MsgRequestBatchTx{ChainId: "ethereum", Denom: "hub", Signer: c.User.String()}}}
+	case "Claim1":
+		ev := &mhubtypes.SendToHubEvent{EventNonce: *depNonce + 1, ExternalCoinId: EthHub, Amount: sdk.NewInt(500), Sender: hub.HexAddr("app-dep"), CosmosReceiver: c.User.String(),
+			ExternalHeight: 1000 + *depNonce + 1, TxHash: fmt.Sprintf("0xappdep%d", *depNonce+1)}
+		return []*apph.Msg{{M: hub.EventMsg(c.Vals[1].Oper, "ethereum", ev)}}
 	case "Deposit":
 		*depNonce++
 		ev := &mhubtypes.SendToHubEvent{EventNonce: *depNonce, ExternalCoinId: EthHub, Amount: sdk.NewInt(500), Sender: hub.HexAddr("app-dep"), CosmosReceiver: c.User.String(),
